@@ -164,7 +164,7 @@ func c11Enumerate(tier string, emit func(*eng.Case)) {
 	if thorough {
 		every = 2
 	}
-	crossEmit(tier, "warm", every, func(c *eng.Case) {
+	crossEmit("C11", tier, "warm", every, func(c *eng.Case) {
 		c.P["doc"] = "warm-vs-fresh " + c.P["doc"]
 		emit(c)
 	})
